@@ -5,12 +5,24 @@ PROP = {'rule': 'rapid-generated cases. takeCPUs: (topology sockets1-2 x numa1-2
          'nodes, free vectors, hint = any non-empty subset of ids, requests at/around the boundary); non-trivial = hint is not {0..k} AND '
          'hinted nodes have unequal free memory. managerHistory: rapid state machine of allocate+update / updateAgain / release / '
          'releaseUnknown through resourceManager; non-trivial = >=3 operations with a NUMA-hint allocation or a CPU shared by two pods. '
+         'managerHistoryExt: the same state machine plus topologyFlap (NodeResourceTopology deleted, then 0-3 of {release of a recorded '
+         'pod, update of a recorded pod, NUMA-only scheduling attempt} while no topology is known, then the same topology reported '
+         'again) and reusableDryRun (uncommitted Allocate that may reuse the CPUs / NUMA amounts of a live pod acting as matched '
+         'reservation: preferredCPUs + reusableResources, mostly with NUMA hint and REQUIRED FullPCPUs/SpreadByPCPUs); non-trivial = >=3 '
+         'operations with a recorded pod released while the topology was missing, or a required-FullPCPUs whole-core request with NUMA '
+         'hint over reusable CPUs that are not core-aligned. '
          'distinct = FNV-64 fingerprint of the full case.',
  'assumptions': ['topologies are regular (every core has the same number of threads), as NewTopologyOptions builds them from the NRT '
                  'report',
                  'allocations enter the ledger only through Allocate followed by Update (what Reserve does); informer-restored allocations '
                  "are C19's subject",
-                 'completeness of the NUMA split is asserted only for freely divisible requests (memory; cpu without cpu-bind)'],
+                 'completeness of the NUMA split is asserted only for freely divisible requests (memory; cpu without cpu-bind)',
+                 'while a node has no valid CPU topology, resourceManager.Update is a documented no-op (guard at its top): a pod is "live" in '
+                 'the model only once it was recorded; a recorded pod stays live across an NRT delete/re-create and leaves the model when '
+                 'Release is called, whether or not a topology is known at that moment (pod delete events / Unreserve are not guarded)',
+                 'the topology reported again after a delete is the same one (same MaxRefCount, reserved CPUs, NUMA resources)',
+                 'reusable CPUs of a reservation are modelled as a subset of the CPUs of one live pod, handed back once (preferredCPUs), with '
+                 'one cpu of NUMA amount per handed-back CPU on the NUMA nodes that pod was charged on'],
  'units': [{'name': 'numa',
             'pkg': 'pkg/scheduler/plugins/nodenumaresource',
             'files': ['C06/c06_test.go'],
@@ -26,6 +38,8 @@ PROP = {'rule': 'rapid-generated cases. takeCPUs: (topology sockets1-2 x numa1-2
                       'free set on arbitrary (asymmetric) free sets; the NUMA split is checked two-directionally (exact, per-node bounded, '
                       'inside the hint, and succeeds iff the hinted nodes together hold the request for divisible resources) for any '
                       'subset hint; allocate/update/release histories are compared after every step with a reference model of per-CPU '
-                      'holders and per-NUMA sums. Exploration, not proof: absence of violations over the sampled cases.',
+                      'holders and per-NUMA sums, including histories in which the NodeResourceTopology disappears and comes back '
+                      'while pods are released, and uncommitted allocations over reusable (reservation) CPUs whose required bind policy '
+                      'is re-verified independently. Exploration, not proof: absence of violations over the sampled cases.',
               'note': "regular topologies; allocations enter the ledger only via Allocate+Update; rapid's PRNG and shrinker; Go map "
                       'iteration inside koordinator is not controlled'}}
